@@ -85,3 +85,38 @@ Proof. exact (conj (proj1 Gex_continuation) (proj1 (proj2 Gex_continuation))). Q
 Print Assumptions C15_continuation.
 Print Assumptions C15_state_roundtrip.
 Print Assumptions C15_refuted_stale.
+
+(* ================================================================== *)
+From Pcfg Require Import OmenGenRt OmenGenRtProofs OmenGenOptProofs OmenGenGsProofs OmenGenGsNextProofs OmenGenMcProofs
+     OmenGenGenProofs.
+From PcfgGen Require Import Consts_gen OmenGen_opt_gen OmenGen_gs_gen OmenGen_mc_gen.
+(* Translator tie: C15_continuation over the code translated from the Python text
+   of optimizer.py / guess_structure.py / markov_cracker.py on every run
+   (gen/OmenGen_*_gen.v; equalities in theories/OmenGen*Proofs.v).  The object
+   load_session leaves for the pickled state (mk_py: target level, cursors, a
+   GuessStructure built from the cursors holding the pickled parse tree and
+   first_guess), driven by the translated next_guess with ANY sound Optimizer,
+   emits exactly the rest of the level and then None.  save_session /
+   load_session themselves (pickle I/O) are not translated. *)
+Theorem C15_source_continuation : forall G T c c2 o2 j s_ip s_len l out st c1 fuel,
+  cache_ok (cp_fast G) (og_max_level G) c ->
+  oinv G omen_optimizer_max_length o2 c2 ->
+  mc_starts (ip_at G) (ln_at G) (og_max_level G) omen_first_object_extra = Some (s_ip, s_len) ->
+  j < length (level_strings G T) ->
+  enumerate (ip_at G) (cp_fast G) (ln_at G) (og_max_level G) omen_optimizer_max_length omen_first_object_extra (S j) c T =
+    Some (l, out, st, c1) ->
+  fuel >= omen_fuel G ->
+  exists m2 o3 c3,
+    py_mc_run (S (length (skipn (S j) (level_strings G T)))) fuel
+              (mk_py (ip_at G) (ln_at G) (build_cp (og_cp G)) (og_max_level G) (Z.of_nat (og_ngram G)) s_ip s_len
+                     (mc_load (mc_save st))) o2 =
+      Ok (skipn (S j) (level_strings G T), true, m2, o3) /\
+    oinv G omen_optimizer_max_length o3 c3.
+Proof. exact (fun G => continuation_translated G omen_optimizer_max_length C15_source_first_object_range). Qed.
+
+(* the Optimizer of the new process (translated constructor) is sound *)
+Theorem C15_source_new_optimizer_is_sound : forall G fuel,
+  exists o, py_opt_init fuel (Z.of_nat omen_optimizer_max_length) = Ok o /\ oinv G omen_optimizer_max_length o cempty.
+Proof. exact (fun G => opt_init_translated G omen_optimizer_max_length). Qed.
+
+Print Assumptions C15_source_continuation.
